@@ -82,7 +82,7 @@ def check_name(case: Tuple[str, bool]) -> Tuple[Optional[Dict[str, Any]], str]:
 
 
 KEYS: List[Any] = ["a", "B", b"bk", "k", "ün", b"\xff\x00", "a b", "a" * 9]
-VALUES: List[Any] = [None, "", b"", "v", b"bv", "x=y", "é", 5, True, b"\x00\xff", "a" * 9]
+VALUES: List[Any] = [None, "", b"", "v", b"bv", "x=y", "é", 5, True, b"\x00\xff", "a" * 9, 0, False]
 
 
 def txt_cases(tier: str) -> Iterator[Tuple[Tuple[Any, Any], ...]]:
